@@ -210,6 +210,7 @@ def gen_program(rng, i, nprocs):
     p.close()
     p.emit("*", "barrier")
     p.emit(0, "snapshot", path="s:@OUT@/c12.nc", tag="final")
+    p.emit("*", "balance", final=1)
     return p, lsline
 
 
